@@ -23,7 +23,8 @@ ENCODED = ['Resolver.yaml_implicit_resolvers (every live pattern and its first-c
 BOUNDS = {'quick': 'E2 language queries: unbounded string length; E1: resolve+construct for every str len<=2, int/float/timestamp templates with free digits, dump side for every str len<=2',
           'thorough': 'E1 with len<=3 and longer templates'}
 OUTSIDE = 'float rounding (sexagesimal floats are compared with a relative tolerance); repr(float)/isoformat shapes are modelled as languages (validated on samples); C loaders reach the same resolve() through libyaml events'
-ASSUMPTIONS = ['oracle: spec/yaml11_types.py (YAML 1.1 type repository restricted to the documented dialect, deviations D1-D4 listed there)',
+ASSUMPTIONS = ['every unsat of z3 is cross-checked by the cvc5 binary on the SMT-LIB2 text of the same query (a disagreement is inconclusive)',
+               'oracle: spec/yaml11_types.py (YAML 1.1 type repository restricted to the documented dialect, deviations D1-D4 listed there)',
                'z3 sequence/regex theory; translator validated against re on the repository data scalars and on every witness',
                'M3 int / M3f float models for the E1 cells', 'floats are modelled as exact rationals (z3 Real) under symbolic execution: rounding is outside the claim']
 
@@ -344,6 +345,8 @@ def smt_checks(tier):
         q = {'name': name, 'seconds': round(dt, 3), 'checks': 1}
         if st == 'unsat':
             q['status'] = 'held'
+            q['cvc5'] = rex.LAST_SECOND[0]
+            q['checks'] = 2
         elif st == 'sat':
             wp = rex.z3str_to_py(w)
             q['status'] = 'violated'
